@@ -21,7 +21,7 @@ let n_of_decimal (s : string) : coq_N =
   (* repeated: acc * 10 + digit, on the extracted N *)
   let ten = n_of_int 10 in
   let acc = ref N0 in
-  String.iter (fun c ->
+  Stdlib.String.iter (fun c ->
     let d = Char.code c - 48 in
     if d < 0 || d > 9 then failwith ("bad decimal: " ^ s);
     acc := BinNat.N.add (BinNat.N.mul !acc ten) (n_of_int d)) s;
@@ -38,8 +38,8 @@ let decimal_of_n (n : coq_N) : string =
   match n with N0 -> "0" | _ -> go n ""
 
 let z_of_decimal (s : string) : coq_Z =
-  if String.length s > 0 && s.[0] = '-' then
-    (match n_of_decimal (String.sub s 1 (String.length s - 1)) with
+  if Stdlib.String.length s > 0 && s.[0] = '-' then
+    (match n_of_decimal (Stdlib.String.sub s 1 (Stdlib.String.length s - 1)) with
      | N0 -> Z0 | Npos p -> Zneg p)
   else (match n_of_decimal s with N0 -> Z0 | Npos p -> Zpos p)
 
@@ -60,7 +60,7 @@ let hexval c =
 let byte_tab : coq_N array = Array.init 256 n_of_int
 
 let bytes_of_hex (s : string) : coq_N list =
-  let n = String.length s / 2 in
+  let n = Stdlib.String.length s / 2 in
   let rec go i acc =
     if i < 0 then acc
     else go (i - 1) (byte_tab.(hexval s.[2*i] * 16 + hexval s.[2*i+1]) :: acc) in
@@ -89,22 +89,22 @@ let err_name (k : Prelude.err_kind) : string =
   | Prelude.ENotImpl -> "NotImpl" | Prelude.EInternal -> "Internal" | Prelude.EIo -> "Io"
 
 let split_ws (s : string) : string list =
-  Stdlib.List.filter (fun x -> x <> "") (String.split_on_char ' ' s)
+  Stdlib.List.filter (fun x -> x <> "") (Stdlib.String.split_on_char ' ' s)
 
 (* registered base images: BASE <name> <hex>; device tokens may be @name^pos:xx^pos:xx *)
 let bases : (string, Bytes.t) Hashtbl.t = Hashtbl.create 8
 let register_base (name : string) (hex : string) : unit =
-  let n = String.length hex / 2 in
+  let n = Stdlib.String.length hex / 2 in
   let b = Bytes.create n in
   for i = 0 to n - 1 do Bytes.set b i (Char.chr (hexval hex.[2*i] * 16 + hexval hex.[2*i+1])) done;
   Hashtbl.replace bases name b
 let resolve_dev (tok : string) : coq_N list =
-  if String.length tok > 0 && tok.[0] = '@' then begin
-    match String.split_on_char '^' (String.sub tok 1 (String.length tok - 1)) with
+  if Stdlib.String.length tok > 0 && tok.[0] = '@' then begin
+    match Stdlib.String.split_on_char '^' (Stdlib.String.sub tok 1 (Stdlib.String.length tok - 1)) with
     | name :: patches ->
       let b = Bytes.copy (Hashtbl.find bases name) in
       Stdlib.List.iter (fun p ->
-          match String.split_on_char ':' p with
+          match Stdlib.String.split_on_char ':' p with
           | [pos; x] ->
             let pos = int_of_string pos in
             let x = hexval x.[0] * 16 + hexval x.[1] in
